@@ -3,7 +3,7 @@
    vectors, half the rotation angle between two orientations (q and -q being the same one), the Euclidean distance
    of 3-vectors. *)
 From Coq Require Import ZArith List Bool Reals Lra Lia Psatz.
-From CV Require Import Base.Num Base.RNum C06.RestraintModel C18.ValueModel C18.ValueProofs.
+From CV Require Import Base.Num Base.RNum C06.RestraintModel C18.ValueModel C18.ValueProofs C18.ExtraProofs C06.RestraintGen.
 Local Open Scope R_scope.
 
 Lemma harm_d2_closed k w d2 : w <> 0 -> harm_potential_d2 Rops k w d2 = k / (2 * w ^ 2) * d2.
@@ -47,4 +47,13 @@ Lemma harm_vector3 k w (a b : vec3) : w <> 0 ->
 Proof.
   intros Hw. rewrite harm_d2_closed by exact Hw. destruct a as [[ax ay] az]. destruct b as [[bx by_] bz].
   unfold v3_dist2, v3norm2, v3dot, v3sub. cbn. ring.
+Qed.
+
+Lemma scheduled_center_on_manifold (a b : vec3) (q1 q2 : quat) (l : R) :
+  (uv_interp_undefined Rops a b l = false -> cv_interp Rops KUnit (V3 a) (V3 b) l = V3 (uv_interp Rops a b l) /\ is_unit (uv_interp Rops a b l)) /\
+  (q_interp_undefined Rops PI q1 q2 l = false -> cv_interp Rops KQuat (VQ q1) (VQ q2) l = VQ (q_interp Rops q1 q2 l) /\ q_unit (q_interp Rops q1 q2 l)).
+Proof.
+  split; intros H; (split; [reflexivity|]).
+  - apply uv_interp_defined_unit; exact H.
+  - apply q_interp_defined_unit; exact H.
 Qed.
